@@ -1,30 +1,202 @@
 (* Mini/ProofsPhrase.v — the phrase replacement theorem (Mini/Walk.v) and what follows from it: the phrase-level
    faults of the catalogue are blamed where `expect` says (C06), the phrase-level rewrites preserve validity (C05).
-   Proofs. *)
+   Proofs.  The replacement theorem itself (`replace_general`) is in Mini/ProofsPhraseRepl.v. *)
 From Coq Require Import List NArith Arith Bool Lia.
 Import ListNotations.
-From RH Require Import Mini.Syntax Mini.Sem Mini.Walk Mini.Faults Mini.Rewrites.
+From RH Require Import Mini.Syntax Mini.Sem Mini.Walk Mini.Faults Mini.Rewrites Mini.ProofsPhraseRepl.
 Open Scope N_scope.
 
-(* PINNED STATEMENTS (to be proved; do not change the statements) *)
+(* ------------------------------------------------------------------------------------------ *)
+(* sub_phrase as an instance of sub_program                                                     *)
+(* ------------------------------------------------------------------------------------------ *)
+Definition fs_of (f : phrase -> phrase) (x : stmt) : stmt := match f (PStmt x) with PStmt y => y | _ => x end.
+Definition fc_of (f : phrase -> phrase) (x : conc) : conc := match f (PConc x) with PConc y => y | _ => x end.
+Definition fe_of (f : phrase -> phrase) (e : expr) : expr := match f (PInit SErr e) with PInit _ y => y | _ => e end.
+Lemma sub_phrase_eq s f p : sub_phrase s f p = sub_program s (fs_of f) (fc_of f) (fe_of f) p.
+Proof. reflexivity. Qed.
+Lemma all_labels_eq p : all_labels p = prog_labels p.
+Proof. reflexivity. Qed.
+
+Ltac in_inv :=
+  repeat (match goal with
+          | H : In _ (flat_map _ _) |- _ => apply in_flat_map in H; destruct H as [? [? ?]]
+          | H : In _ (map _ _) |- _ => apply in_map_iff in H; destruct H as [? [? ?]]
+          | H : In _ (_ ++ _) |- _ => apply in_app_or in H; destruct H as [H|H]
+          | H : In _ [] |- _ => destruct H
+          | H : In _ (_ :: _) |- _ => destruct H as [H|H]
+          | H : In _ (match ?x with _ => _ end) |- _ => destruct x
+          end; subst).
+
+(* ------------------------------------------------------------------------------------------ *)
+(* PINNED STATEMENTS                                                                            *)
+(* ------------------------------------------------------------------------------------------ *)
 
 Theorem nodup_nids_sound : forall p, nodup_nids p = true -> NoDup (nids_program p).
-Proof.
-Admitted.
+Proof. intros p H. apply nodup_list_sound. exact H. Qed.
 
 (* C06, phrase-level fault classes *)
 Definition phrase_class (f : fclass) : Prop :=
   f = FWrongLiteral \/ f = FWrongObject \/ f = FNoOverload \/ f = FMissingAssoc \/ f = FSigVar.
+
+(* plant_phrase keeps the kind of a phrase, the expected type of an initial value and the labels *)
+Lemma set_root_stmt e x : exists y, set_root e (PStmt x) = PStmt y.
+Proof. destruct x as [| | | | | | |i [e0|]|]; cbn [set_root]; eauto. Qed.
+Lemma set_root_conc e c : exists y, set_root e (PConc c) = PConc y /\ labels_conc y = labels_conc c.
+Proof. destruct c; cbn [set_root]; eauto. Qed.
+Lemma plant_stmt st x : exists y, plant_phrase st (PStmt x) = PStmt y.
+Proof.
+  destruct st; cbn [plant_phrase]; eauto using set_root_stmt.
+  - destruct (phrase_root (PStmt x)) as [[]|]; eauto using set_root_stmt.
+  - destruct x; eauto.
+Qed.
+Lemma plant_conc st c : exists y, plant_phrase st (PConc c) = PConc y /\ labels_conc y = labels_conc c.
+Proof.
+  destruct st; cbn [plant_phrase]; eauto using set_root_conc.
+  - destruct (phrase_root (PConc c)) as [[]|]; eauto using set_root_conc.
+  - destruct c; eauto; destruct port; eauto.
+Qed.
+Lemma plant_init st e : exists e', forall ty, plant_phrase st (PInit ty e) = PInit ty e'.
+Proof.
+  destruct st; cbn [plant_phrase set_root phrase_root]; eauto.
+  destruct e; cbn [set_root]; eauto.
+Qed.
+Lemma plant_app st ph :
+  app_ph (fs_of (plant_phrase st)) (fc_of (plant_phrase st)) (fe_of (plant_phrase st)) ph = plant_phrase st ph.
+Proof.
+  destruct ph as [x|c|ty e]; cbn [app_ph]; unfold fs_of, fc_of, fe_of.
+  - destruct (plant_stmt st x) as [y Hy]. rewrite Hy. reflexivity.
+  - destruct (plant_conc st c) as [y [Hy _]]. rewrite Hy. reflexivity.
+  - destruct (plant_init st e) as [e' He']. rewrite (He' SErr), (He' ty). reflexivity.
+Qed.
+Lemma plant_lab_ok st j L : lab_ok (fc_of (plant_phrase st)) j L.
+Proof.
+  intros c0 _. exists []. unfold fc_of. destruct (plant_conc st c0) as [y [Hy Hl]]. rewrite Hy.
+  split; [exact Hl|]. split; [constructor|]. intros x [].
+Qed.
+
+Lemma cls_eqb_eq a b : cls_eqb a b = true -> a = b.
+Proof. destruct a, b; cbn [cls_eqb]; intros H; try reflexivity; discriminate H. Qed.
+
+Lemma phrase_candidates f st p :
+  phrase_class f -> In st (site_candidates f p) -> plant st p = sub_phrase (site_nid st) (plant_phrase st) p.
+Proof.
+  intros [Hf|[Hf|[Hf|[Hf|Hf]]]] H; subst f; cbn [site_candidates] in H; in_inv; reflexivity.
+Qed.
+Lemma phrase_eligible f st p : phrase_class f -> eligible f st p = eligible_phrase f st p.
+Proof. intros [Hf|[Hf|[Hf|[Hf|Hf]]]]; subst f; reflexivity. Qed.
+
 Theorem plant_phrase_blame : forall p f st,
   Valid p -> NoDup (nids_program p) -> phrase_class f -> In st (sites f p) ->
   blame_program (plant st p) = Some (expect f st p).
 Proof.
-Admitted.
+  intros p f st Hv Hn Hf Hs. unfold sites in Hs. apply filter_In in Hs. destruct Hs as [Hc He].
+  rewrite (phrase_eligible _ _ _ Hf) in He. rewrite (phrase_candidates _ _ _ Hf Hc).
+  unfold eligible_phrase in He. destruct (find_phrase p (site_nid st)) as [i|] eqn:Hfind; [|discriminate He].
+  unfold eligible_at, local_blame in He.
+  destruct (check_phrase Exactly (pi_GE i) (pi_G i) (plant_phrase st (pi_ph i))) as [u|n c] eqn:Hchk; [discriminate He|].
+  apply andb_true_iff in He. destruct He as [He1 He2]. apply N.eqb_eq in He1. apply cls_eqb_eq in He2.
+  unfold blame_program. rewrite sub_phrase_eq.
+  rewrite (replace_general _ _ _ _ p i Hv Hn Hfind (plant_lab_ok st i _)).
+  unfold Vf. rewrite plant_app, Hchk.
+  unfold expect, expect_nid. rewrite Hfind, He1, He2. reflexivity.
+Qed.
 
 (* C05, phrase-level rewrites *)
 Definition phrase_rewrite (r : rewrite) : Prop :=
   match r with RNamed _ | RPositional _ | RSelected _ _ | RWrap _ _ => True | _ => False end.
+
+(* the new phrase is of the kind of the old one, expects the same type, and has its labels and possibly new ones *)
+Definition ph_compat (L : list ident) (a ph : phrase) : Prop :=
+  match a, ph with
+  | PStmt _, PStmt _ => True
+  | PConc c, PConc y =>
+      exists pre, labels_conc y = pre ++ labels_conc c /\ NoDup pre /\ forall x, In x pre -> ~ In x L
+  | PInit t _, PInit t' _ => t = t'
+  | _, _ => False
+  end.
+Lemma ph_compat_same_labels L c y : labels_conc y = labels_conc c -> ph_compat L (PConc c) (PConc y).
+Proof. intros H. exists []. split; [exact H|]. split; [constructor|]. intros x []. Qed.
+Lemma set_root_compat L e a : ph_compat L a (set_root e a).
+Proof.
+  destruct a as [x|c|ty e0].
+  - destruct (set_root_stmt e x) as [y Hy]. rewrite Hy. exact I.
+  - destruct (set_root_conc e c) as [y [Hy Hl]]. rewrite Hy. apply ph_compat_same_labels. exact Hl.
+  - reflexivity.
+Qed.
+Lemma compat_app L a ph :
+  ph_compat L a ph -> app_ph (fs_of (fun _ => ph)) (fc_of (fun _ => ph)) (fe_of (fun _ => ph)) a = ph.
+Proof.
+  destruct a as [x|c|ty e], ph as [x'|c'|ty' e']; cbn [ph_compat]; intros H; try contradiction; cbn [app_ph]; unfold fs_of, fc_of, fe_of.
+  - reflexivity.
+  - reflexivity.
+  - subst ty'. reflexivity.
+Qed.
+Lemma compat_lab_ok L j ph : ph_compat L (pi_ph j) ph -> lab_ok (fc_of (fun _ => ph)) j L.
+Proof.
+  intros H c0 Hc0. rewrite Hc0 in H. unfold fc_of. destruct ph as [x'|c'|ty' e']; cbn [ph_compat] in H; try contradiction.
+  exact H.
+Qed.
+
+Lemma assoc_candidates_compat L named m i ph : In ph (assoc_candidates named m i) -> ph_compat L (pi_ph i) ph.
+Proof.
+  unfold assoc_candidates. intros H.
+  destruct (pi_ph i) as [x|c|ty e] eqn:Hph.
+  - destruct x; cbn [phrase_root] in H; in_inv; try exact I; try apply set_root_compat.
+  - destruct c; cbn [phrase_root] in H; in_inv; try (apply ph_compat_same_labels; reflexivity); try apply set_root_compat.
+  - cbn [phrase_root] in H. in_inv; apply set_root_compat.
+Qed.
+
+Lemma filter_head {A} (f : A -> bool) l x r : filter f l = x :: r -> In x l /\ f x = true.
+Proof. intros H. apply filter_In. rewrite H. left. reflexivity. Qed.
+
+Lemma rewrite_phrase_spec r p s ph :
+  rewrite_phrase r p = Some (s, ph) ->
+  exists i, find_phrase p s = Some i /\ phrase_ok i ph = true /\ ph_compat (prog_labels p) (pi_ph i) ph.
+Proof.
+  destruct r as [s0|s0|s0|s0 x|s0|s0 lbl|s0 x k]; cbn [rewrite_phrase]; cbv zeta; try discriminate.
+  - destruct (find_phrase p s0) as [i|] eqn:Hfind; [|discriminate].
+    destruct (filter (phrase_ok i) (assoc_candidates true (max_nid p + 1) i)) as [|ph0 rest] eqn:Hflt; [discriminate|].
+    intros H. injection H as H1 H2. subst s0 ph0. apply filter_head in Hflt. destruct Hflt as [Hin Hok].
+    exists i. split; [exact Hfind|]. split; [exact Hok|]. eapply assoc_candidates_compat. exact Hin.
+  - destruct (find_phrase p s0) as [i|] eqn:Hfind; [|discriminate].
+    destruct (filter (phrase_ok i) (assoc_candidates false (max_nid p + 1) i)) as [|ph0 rest] eqn:Hflt; [discriminate|].
+    intros H. injection H as H1 H2. subst s0 ph0. apply filter_head in Hflt. destruct Hflt as [Hin Hok].
+    exists i. split; [exact Hfind|]. split; [exact Hok|]. eapply assoc_candidates_compat. exact Hin.
+  - destruct (find_phrase p s0) as [i|] eqn:Hfind; [|discriminate].
+    destruct (selected_phrase (max_nid p + 1) i x) as [ph0|] eqn:Hsel; [|discriminate].
+    destruct (phrase_ok i ph0) eqn:Hok; [|discriminate].
+    intros H. injection H as H1 H2. subst s0 ph0.
+    exists i. split; [exact Hfind|]. split; [exact Hok|].
+    unfold selected_phrase in Hsel. destruct (phrase_root (pi_ph i)) as [e|]; [|discriminate Hsel].
+    destruct (home_of i x) as [[l q]|]; [|discriminate Hsel]. injection Hsel as Hsel. subst ph. apply set_root_compat.
+  - destruct (find_phrase p s0) as [i|] eqn:Hfind; [|discriminate].
+    destruct (pi_ph i) as [x|c|ty e] eqn:Hph; try discriminate.
+    destruct (phrase_ok i _ && negb (memb lbl (all_labels p)) && negb (lbl =? id_undeclared)) eqn:Hcond; [|discriminate].
+    intros H. injection H as H1 H2. subst s0 ph.
+    apply andb_true_iff in Hcond. destruct Hcond as [Hcond _]. apply andb_true_iff in Hcond. destruct Hcond as [Hok Hfresh].
+    exists i. split; [exact Hfind|]. split; [exact Hok|]. rewrite Hph. cbn [ph_compat].
+    exists [lbl]. split; [cbn [labels_conc labels_concs app]; rewrite app_nil_r; reflexivity|].
+    split; [constructor; [intros []|constructor]|].
+    intros y [Hy|[]] Hin. subst y. apply negb_true_iff in Hfresh. rewrite all_labels_eq in Hfresh.
+    assert (E : memb lbl (prog_labels p) = true).
+    { unfold memb. apply existsb_exists. exists lbl. split; [exact Hin|apply N.eqb_refl]. }
+    rewrite E in Hfresh. discriminate Hfresh.
+Qed.
+
 Theorem rewrite_phrase_valid : forall p r,
   Valid p -> phrase_rewrite r -> applicable r p = true -> Valid (apply_rewrite r p).
 Proof.
-Admitted.
+  intros p r Hv Hr Ha.
+  assert (Hn : NoDup (nids_program p)).
+  { apply nodup_nids_sound. unfold applicable in Ha. apply andb_true_iff in Ha. exact (proj1 Ha). }
+  assert (Hrp : exists s ph, rewrite_phrase r p = Some (s, ph) /\ apply_rewrite r p = sub_phrase s (fun _ => ph) p).
+  { unfold applicable in Ha. apply andb_true_iff in Ha. destruct Ha as [_ Ha].
+    destruct r; cbn [phrase_rewrite] in Hr; try contradiction; unfold apply_rewrite; cbv zeta;
+      destruct (rewrite_phrase _ p) as [[s0 ph]|]; try discriminate Ha; exists s0, ph; split; reflexivity. }
+  destruct Hrp as [s [ph [Hrw Happ]]]. rewrite Happ.
+  destruct (rewrite_phrase_spec _ _ _ _ Hrw) as [i [Hfind [Hok Hcomp]]].
+  unfold Valid. rewrite sub_phrase_eq.
+  rewrite (replace_general _ _ _ _ p i Hv Hn Hfind (compat_lab_ok _ _ _ Hcomp)).
+  unfold Vf. rewrite (compat_app _ _ _ Hcomp).
+  unfold phrase_ok in Hok. destruct (check_phrase Exactly (pi_GE i) (pi_G i) ph) as [[]|n c]; [reflexivity|discriminate Hok].
+Qed.
